@@ -1163,3 +1163,98 @@ pub mod c13 {
         Ok(out)
     }
 }
+
+/// C48: the migration definitions of the previous and the target domain level, and the crate-private
+/// single-entry upsert / level-raise entry points the migration driver is made of.
+pub mod c48 {
+    use crate::entry::EntryInitNew;
+    use crate::migration_data;
+    use crate::prelude::*;
+    use crate::schema::SchemaTransaction;
+
+    /// (phase number, definitions) in the order `migrate_domain_*` applies them, and the delete list.
+    pub type Defs = (Vec<(u8, Vec<EntryInitNew>)>, Vec<Uuid>);
+
+    /// Entry batches of `migration_data::dl_1_12` (the level `DOMAIN_TGT_LEVEL` migrates to).
+    pub fn defs_target() -> Result<Defs, OperationError> {
+        use migration_data::dl_1_12 as dl;
+        Ok((
+            vec![
+                (3, dl::phase_3_key_provider()),
+                (4, dl::phase_4_system_entries()),
+                (5, dl::phase_5_builtin_admin_entries()?),
+                (6, dl::phase_6_builtin_non_admin_entries()?),
+                (7, dl::phase_7_builtin_access_control_profiles()),
+            ],
+            dl::phase_8_delete_uuids(),
+        ))
+    }
+
+    /// Entry batches of `migration_data::dl15` (the level `DOMAIN_PREVIOUS_TGT_LEVEL` was created with).
+    pub fn defs_previous() -> Result<Defs, OperationError> {
+        use migration_data::dl15 as dl;
+        Ok((
+            vec![
+                (3, dl::phase_3_key_provider()),
+                (4, dl::phase_4_system_entries()),
+                (5, dl::phase_5_builtin_admin_entries()?),
+                (6, dl::phase_6_builtin_non_admin_entries()?),
+                (7, dl::phase_7_builtin_access_control_profiles()),
+            ],
+            dl::phase_8_delete_uuids(),
+        ))
+    }
+
+    /// `Entry::gen_modlist_assert` against the transaction's schema, validated, as
+    /// `(purged?, attribute, present value in proto form)` in list order.
+    pub fn gen_modlist_assert(
+        qs: &QueryServerWriteTransaction<'_>,
+        e: &EntryInitNew,
+    ) -> Result<Vec<(bool, Attribute, Option<String>)>, String> {
+        let ml = e
+            .gen_modlist_assert(qs.get_schema())
+            .map_err(|e| format!("gen:{e:?}"))?;
+        let ml = ml
+            .validate(qs.get_schema())
+            .map_err(|e| format!("validate:{e:?}"))?;
+        let mut out = Vec::new();
+        for m in ml.iter() {
+            match m {
+                Modify::Purged(a) => out.push((true, a.clone(), None)),
+                Modify::Present(a, v) => {
+                    out.push((false, a.clone(), Some(v.to_proto_string_clone())))
+                }
+                other => return Err(format!("unexpected modify {other:?}")),
+            }
+        }
+        Ok(out)
+    }
+
+    /// `QueryServerWriteTransaction::internal_apply_domain_migration` (set the version, reload).
+    pub fn apply_domain_migration(
+        qs: &mut QueryServerWriteTransaction<'_>,
+        to_level: u32,
+    ) -> Result<(), OperationError> {
+        qs.internal_apply_domain_migration(to_level)
+    }
+
+    /// `reload()` of a write transaction.
+    pub fn reload(qs: &mut QueryServerWriteTransaction<'_>) -> Result<(), OperationError> {
+        qs.reload()
+    }
+
+    /// `schema.is_multivalue(attr)` as `gen_modlist_assert` asks it.
+    pub fn is_multivalue(
+        qs: &QueryServerWriteTransaction<'_>,
+        attr: &Attribute,
+    ) -> Result<bool, String> {
+        qs.get_schema()
+            .is_multivalue(attr)
+            .map_err(|e| format!("{e:?}"))
+    }
+
+    /// The in-memory domain version and patch level of a write transaction.
+    pub fn domain_version(qs: &QueryServerWriteTransaction<'_>) -> (u32, u32) {
+        (qs.get_domain_version(), qs.get_domain_patch_level())
+    }
+}
